@@ -52,28 +52,50 @@ def rule_provenance(ctx):
                         ok = False
                     else:
                         srcs.add(v.value.id)
-                ok = ok and srcs <= {"note", "cur_note"} and len(srcs) == 1
+                # the source must be one note variable: a loop variable / parameter, or a local that is (re)bound from one
+                allowed = set(f.params)
+                for x in own_nodes(f.node):
+                    if isinstance(x, ast.For):
+                        allowed |= {t.id for t in ast.walk(x.target) if isinstance(t, ast.Name)}
+                made = {norm(a.targets[0]) for a in own_nodes(f.node) if isinstance(a, ast.Assign) and a.value is c or
+                        (isinstance(a, ast.Assign) and isinstance(a.value, ast.Call) and norm(a.value.func) in ("Note", "UnpitchedNote"))}
+                changed = True
+                while changed:
+                    changed = False
+                    for a in own_nodes(f.node):
+                        if isinstance(a, ast.Assign) and len(a.targets) == 1 and isinstance(a.targets[0], ast.Name) and isinstance(a.value, ast.Name) \
+                                and (a.value.id in allowed or a.value.id in made) and a.targets[0].id not in allowed:
+                            allowed.add(a.targets[0].id)
+                            changed = True
+                ok = ok and len(srcs) == 1 and srcs <= allowed and not (srcs & made)
                 ctx.check(ok, "PROV", f"{fn}: {norm(c)[:50]}", func=f, node=c, construct=f"continuation-attributes:{fn}:{norm(c.func)}",
                           msg=f"`{norm(c)[:90]}`: a continuation note must copy step/octave/alter/voice/staff from the note being "
                               f"split (sources found: {sorted(srcs)}): every tie chain is of one pitch, voice and staff")
         for st in own_statements(f.node.body):
             if isinstance(st, ast.Assign) and len(st.targets) == 1 and isinstance(st.targets[0], ast.Attribute) and st.targets[0].attr == "tie_next" \
-                    and isinstance(st.value, ast.Name) and st.value.id not in ("orig_tie_next",):
+                    and isinstance(st.value, ast.Name) and st.value.id in {norm(a.targets[0]) for a in own_nodes(f.node) if isinstance(a, ast.Assign)
+                                                                           and isinstance(a.value, ast.Call) and norm(a.value.func) in ("Note", "UnpitchedNote")}:
                 n_pair += 1
                 a, b = norm(st.targets[0].value), st.value.id
                 block = _block_of(st)
-                ok = any(isinstance(s, ast.Assign) and norm(s.targets[0]) == f"{b}.tie_prev" and norm(s.value) == a for s in block)
+                ok = any(isinstance(s2, ast.Assign) and norm(s2.targets[0]) == f"{b}.tie_prev" and norm(s2.value) == a for s2 in block)
                 ctx.check(ok, "PAIR", f"{fn}: {norm(st)}", func=f, node=st, construct=f"tie-link-unpaired:{fn}",
                           msg=f"`{norm(st)}` has no matching `{b}.tie_prev = {a}` in the same block: the chain cannot be walked backwards "
                               f"(tie chains must be contiguous)")
     ctx.floor("PROV", "continuation constructors", n_ctor, 3)
     ctx.floor("PAIR", "tie_next assignments", n_pair, 2)
     sp = ctx.prog.func(f"{S}:split_note", "PAIR")
-    src = {norm(s) for s in own_statements(sp.node.body)}
-    ctx.check("orig_tie_next = note.tie_next" in src and "cur_note.tie_next = orig_tie_next" in src, "PAIR", "split_note keeps the outgoing tie",
-              func=sp, construct="split-drops-outgoing-tie", msg="split_note must remember note.tie_next and put it on the last piece")
-    ctx.check(any("slur.end_note = cur_note" in x for x in src | {norm(n) for n in own_nodes(sp.node) if isinstance(n, ast.Assign)}), "PAIR",
-              "split_note moves slur ends to the last piece", func=sp, construct="split-slur-ends",
+    note_p = sp.params[1]
+    saved = [norm(a.targets[0]) for a in own_nodes(sp.node) if isinstance(a, ast.Assign) and norm(a.value) == f"{note_p}.tie_next" and isinstance(a.targets[0], ast.Name)]
+    restored = any(isinstance(a, ast.Assign) and isinstance(a.targets[0], ast.Attribute) and a.targets[0].attr == "tie_next" and norm(a.value) in saved
+                   for a in sp.node.body)
+    ctx.check(bool(saved) and restored, "PAIR", "split_note keeps the outgoing tie", func=sp, construct="split-drops-outgoing-tie",
+              msg=f"split_note must remember {note_p}.tie_next and put it on the last piece (after the splitting loop)")
+    slurs = [norm(a.targets[0]) for a in own_nodes(sp.node) if isinstance(a, ast.Assign) and norm(a.value) == f"{note_p}.slur_stops" and isinstance(a.targets[0], ast.Name)]
+    moved = any(isinstance(l, ast.For) and norm(l.iter) in slurs and any(isinstance(b, ast.Assign) and isinstance(b.targets[0], ast.Attribute)
+                                                                         and b.targets[0].attr == "end_note" and norm(b.targets[0].value) == norm(l.target) for b in l.body)
+                for l in own_nodes(sp.node))
+    ctx.check(bool(slurs) and moved, "PAIR", "split_note moves slur ends to the last piece", func=sp, construct="split-slur-ends",
               msg="slurs ending on the split note must end on its last piece")
 
 
